@@ -484,7 +484,7 @@ def execute(run: Dict[str, Any], golden: Dict[str, Any]) -> Dict[str, Any]:
                         nm = battery.STRUCT[op[2]][0]
                         viol.append(
                             {
-                                "sig": f"use-differs:{nm}:{exp[0]}->{outcome[0]}",
+                                "sig": f"use-differs:{exp[0]}->{outcome[0]}",
                                 "msg": f"thread {idx} op {oi} USE({nm}) on a {mode.get(id(c), 'plain')} converter gave "
                                 f"{outcome} but a lone fresh converter gives {tuple(exp)}",
                             }
@@ -497,7 +497,7 @@ def execute(run: Dict[str, Any], golden: Dict[str, Any]) -> Dict[str, Any]:
                         nm = battery.BUILD[op[2]][0]
                         viol.append(
                             {
-                                "sig": f"build-differs:{nm}:{exp[0]}->{outcome[0]}",
+                                "sig": f"build-differs:{exp[0]}->{outcome[0]}",
                                 "msg": f"thread {idx} op {oi} BUILD({nm}) gave {outcome}, lone fresh converter gives {tuple(exp)}",
                             }
                         )
@@ -563,7 +563,7 @@ def execute(run: Dict[str, Any], golden: Dict[str, Any]) -> Dict[str, Any]:
                     nm = battery.STRUCT[k][0]
                     viol.append(
                         {
-                            "sig": f"sweep-differs:{nm}:{exp[0]}->{out[0]}",
+                            "sig": f"sweep-differs:{exp[0]}->{out[0]}",
                             "msg": f"after the run, a {md} converter gives {out} for {nm}; a lone fresh converter gives {tuple(exp)}",
                         }
                     )
@@ -697,7 +697,7 @@ def minimise(run: Dict[str, Any], res: Dict[str, Any], sig: str, log: Any) -> Tu
     best_run, best_res = run, res
     # 1. drop whole threads (keep at least one)
     changed = True
-    while changed and best_run["n"] > 1 and tries[0] < 60:
+    while changed and best_run["n"] > 1 and tries[0] < 30:
         changed = False
         for t in range(best_run["n"]):
             cand = dict(best_run)
@@ -724,14 +724,14 @@ def minimise(run: Dict[str, Any], res: Dict[str, Any], sig: str, log: Any) -> Tu
     memo: Dict[str, Any] = {}
 
     def f_ops(keep: List[Tuple[int, int]]) -> bool:
-        if tries[0] > 160:
+        if tries[0] > 80:
             return False
         out = fails(with_ops(keep))
         if out:
             memo["res"] = out
         return bool(out)
 
-    kept = core.ddmin(flat, f_ops, budget=80)
+    kept = core.ddmin(flat, f_ops, budget=40)
     cand = with_ops(kept)
     out = fails(cand)
     if out:
@@ -752,13 +752,13 @@ def minimise(run: Dict[str, Any], res: Dict[str, Any], sig: str, log: Any) -> Tu
             segs = [list(s) for s in best_res["decisions"]]
 
             def f_tr(sub: List[List[int]]) -> bool:
-                if tries[0] > 260:
+                if tries[0] > 150:
                     return False
                 c2 = dict(best_run)
                 c2["policy"] = {"kind": "trace", "trace": sub}
                 return bool(fails(c2))
 
-            segs2 = core.ddmin(segs, f_tr, budget=90)
+            segs2 = core.ddmin(segs, f_tr, budget=50)
             c2 = dict(best_run)
             c2["policy"] = {"kind": "trace", "trace": segs2}
             out = fails(c2)
@@ -921,25 +921,31 @@ def main(argv: List[str]) -> int:
         except core.HarnessError as e:
             rep.harness_error(str(e))
 
-    # ---- violations: minimise, confirm in a fresh process, report ----------------------------
+    # ---- violations: minimise (in parallel, single-threaded pool workers), confirm in a fresh process, report
+    unknown_sigs = [sg for sg in sorted(first_fail) if rep.kf.match(PROP, sg) is None]
+    minimised: Dict[str, Tuple[Dict[str, Any], Dict[str, Any]]] = {}
+    to_min = unknown_sigs[:3]
+    if to_min:
+        try:
+            outs = core.run_pool(_minimise_task, [(first_fail[sg][0], first_fail[sg][1], sg) for sg in to_min], workers=len(to_min), per_task_timeout=1500.0)
+            for i, (mrun, mres, mlog) in outs:
+                minimised[to_min[i]] = (mrun, mres)
+                rep.log(f"{to_min[i]}: {mlog}")
+        except core.HarnessError as e:
+            rep.harness_error(f"minimiser: {e}")
     for sig, (task, res) in sorted(first_fail.items()):
         msg = next(v["msg"] for v in res["violations"] if v["sig"] == sig)
         if rep.kf.match(PROP, sig) is not None:
             rep.add_violation(sig, msg, {})
             continue
-        try:
-            # in a single-threaded pool worker, so the forks of the minimiser start from one thread
-            (_, (mrun, mres, mlog)), = core.run_pool(_minimise_task, [(task, res, sig)], workers=1, per_task_timeout=1200.0)
-            rep.log(mlog)
-        except core.HarnessError as e:
-            rep.harness_error(f"minimiser: {e}")
-            mrun, mres = task, res
+        mrun, mres = minimised.get(sig, (task, res))
         msg = next((v["msg"] for v in mres["violations"] if v["sig"] == sig), msg)
         replay = {
             "run_seed": task["run_seed"],
             "verif_seed": seed,
             "run": mrun,
             "original_run": task,
+            "minimised": sig in minimised,
             "digest": mres.get("digest"),
             "decisions": mres.get("decisions"),
             "history": mres.get("history"),
